@@ -2,7 +2,7 @@
 
 The type-level contract in contracts/names.py (assumed) is what callers use.  This module replaces it, for one proof set of C02
 only, by a contract that is *verified*: the result is a new Type object and its qualifiers (const, shared pointer, raw pointer,
-reference, basic) are those of the argument, whichever branch instantiates it.  The frame is NOT checked here (frame=False: the
+reference, basic) are those of the argument, whichever branch instantiates it; plain names are substituted exactly.  The frame is NOT checked here (frame=False: the
 attempt to prove it is described in DESIGN 11.5) and the recursive calls are used through this same contract, so the statement is:
 qualifiers are preserved provided the nested calls change no object that existed before them.
 """
@@ -21,7 +21,26 @@ contract('instantiate_type',
          # TemplatedType has as many template_params as its typename has instantiations; carrying that through the first loop
          # needs "a template argument is not the type's own typename" (acyclicity), which the contract language cannot say
          raises={'IndexError': True},
-         ensures=['is_fresh(result)'] + ['result.%s == old(ctype.%s)' % (q, q) for q in QUALS],
+         ensures=['is_fresh(result)'] + ['result.%s == old(ctype.%s)' % (q, q) for q in QUALS] + [
+             # the simplest occurrence of a parameter -- a plain, unqualified name -- is replaced by the corresponding argument
+             # (the argument of the first parameter of that name), as the very object the caller passed
+             'implies(not isinstance(ctype, TemplatedType) and old(len(ctype.typename.instantiations) == 0 '
+             'and len(ctype.typename.namespaces) == 0 and "::" not in ctype.typename.name), '
+             'forall(0, len(template_typenames), lambda k: implies('
+             'template_typenames[k] == old(ctype.typename.name) '
+             'and forall(0, k, lambda j: template_typenames[j] != old(ctype.typename.name)), '
+             'same(result.typename, instantiations[k]))))',
+             # ... and a plain name that is no parameter (and does not mention This) is left as it is
+             'implies(not isinstance(ctype, TemplatedType) and old(len(ctype.typename.instantiations) == 0 '
+             'and len(ctype.typename.namespaces) == 0 and "::" not in ctype.typename.name and "This" not in ctype.typename.name) '
+             'and forall(0, len(template_typenames), lambda k: template_typenames[k] != old(ctype.typename.name)), '
+             'result.typename.name == old(ctype.typename.name) and len(result.typename.namespaces) == 0 '
+             'and len(result.typename.instantiations) == 0)',
+             # ... and a plain `This` (no class object given, no parameter of that name) becomes the class typename passed in
+             'implies(not isinstance(ctype, TemplatedType) and old(len(ctype.typename.instantiations) == 0 '
+             'and len(ctype.typename.namespaces) == 0 and ctype.typename.name == "This") and instantiated_class is None '
+             'and forall(0, len(template_typenames), lambda k: template_typenames[k] != "This"), '
+             'same(result.typename, cpp_typename))'],
          loops={0: {'inv': ['is_fresh(ctype.typename.instantiations)'],
                     'modifies': ['new:name', 'new:namespaces', 'new:instantiations', 'new:SEQ']},
                 1: {'inv': [], 'modifies': ['new:SEQ']},
